@@ -6,6 +6,7 @@ package server
 // now and under every continuation of the history.
 
 import (
+	"runtime"
 	"bytes"
 	"encoding/json"
 	"fmt"
@@ -322,10 +323,11 @@ func c11Run(t *testing.T, p c11Plan) (res vfResult) {
 				var got, got2 vfCmdResult
 				sc.spawn("first", func() { got = vfExec(w, a, c) })
 				overlapped := false
+				var queued chan struct{}
 				for guard := 0; guard < 400 && !sc.isFinished("first"); guard++ {
 					synctest.Wait()
 					if sc.parkedAt("first") != "" {
-						if !overlapped && a.snapshotLock.TryLock() {
+						if !overlapped && queued == nil && a.snapshotLock.TryLock() {
 							// nobody holds the snapshot lock while "first" has its list: the next command may overtake it
 							a.snapshotLock.Unlock()
 							sc.mu.Lock()
@@ -333,6 +335,20 @@ func c11Run(t *testing.T, p c11Plan) (res vfResult) {
 							sc.mu.Unlock()
 							got2 = vfExec(w, a, c2)
 							overlapped = true
+						} else if !overlapped && queued == nil {
+							// "first" writes under the snapshot lock: the next command is issued meanwhile and has to queue
+							// behind it for its own snapshot (it must not go without one)
+							sc.mu.Lock()
+							sc.off = true
+							sc.mu.Unlock()
+							queued = make(chan struct{})
+							go func() {
+								defer close(queued)
+								got2 = vfExec(w, a, c2)
+							}()
+							for k := 0; k < 5000; k++ {
+								runtime.Gosched()
+							}
 						}
 						sc.release("first")
 						continue
@@ -342,7 +358,10 @@ func c11Run(t *testing.T, p c11Plan) (res vfResult) {
 				sc.stop()
 				vfCurSched.Store(nil)
 				synctest.Wait()
-				if !overlapped {
+				if queued != nil {
+					<-queued
+					res.label("history-ends-with-a-command-queued-behind-a-snapshot")
+				} else if !overlapped {
 					got2 = vfExec(w, a, c2)
 				} else {
 					res.label("history-ends-with-overtaken-snapshot")
